@@ -388,6 +388,9 @@ def main():
     t_start = time.time()
     workdir = os.path.join(ROOT, 'work', pid + BIN_SUFFIX + ('-thorough' if tier == 'thorough' else '') + ('-replay' if a.replay else ''))
     os.makedirs(workdir, exist_ok=True)
+    # two runs of the same check, tier and repository share a work directory: serialise them
+    _runlock = Lock('run-' + os.path.basename(workdir))
+    _runlock.__enter__()
     os.makedirs(os.path.join(ROOT, 'replays'), exist_ok=True)
     os.makedirs(os.path.join(ROOT, 'evidence'), exist_ok=True)
     violations = []          # (replay path, suffix)
